@@ -173,6 +173,9 @@ def judge(case, trace, mo, acc_l, acc_s, consts_expected=None):
         v.what = ("acceptor rejects the implementation's history at op %d (%s, harness op %s): %s"
                   % (idx, g[0], g[2], REASONS.get(code, "reason %d" % code)))
         v.detail = "outputs of that op: %s" % " ".join(g[1])
+        if t.ca_leaks:
+            v.detail += ("\nNSTART accounting: " + "; ".join(t.ca_leaks[:3]) +
+                         " (the acceptor was given the number outstanding on the wire)")
         if code in (3, 8):
             # the acceptor ties the Observe value to libcoap's counter (one step per change); the
             # property only asks for freshness: decide that on the implementation's values alone
